@@ -2,23 +2,8 @@
    _group_current is a fold of [sel_record] over the records it reads. *)
 From Coq Require Import ZArith List Bool Lia Arith.
 From BP Require Import Base.Prelude Model.Types Model.Varint Model.Object Model.Eq Model.Encode Model.Decode.
-From BP Require Import Model.History Model.C07Ops Model.C07Step Proofs.C07InvP.
+From BP Require Import Model.History Model.C07Ops Model.C07Step Proofs.C07InvP Proofs.C07UnfoldP.
 Import ListNotations.
-
-(* the named pieces of Model/C07Step.v ARE the body of load: by conversion *)
-Lemma load_unfold fuel' sc c raw sow unk cur s size :
-  load (S fuel') sc (Obj c raw sow unk cur) s size =
-  (do (size, s) <- match size with
-                   | Some n => if n =? Tables.SIZE_DELIMITED
-                               then do (n', _, s') <- load_varint s; Ok (Some n', s')
-                               else Ok (Some n, s)
-                   | None => Ok (None, s)
-                   end;
-   match size with
-   | Some 0 => Ok (Obj c raw true unk cur, s)
-   | _ => c7_loop fuel' sc size (get_class sc c) (S (length s)) (Obj c raw true unk cur) s 0
-   end).
-Proof. Time reflexivity. Time Qed.
 
 (* ---- small facts ---- *)
 Lemma set_nth_same {A} (g : nat) (x d : A) l : nth g l d = x -> set_nth g x l = l.
@@ -47,19 +32,19 @@ Lemma field_by_number_some cd num i f :
   field_by_number cd num = Some (i, f) -> nth_error (cfields cd) i = Some f /\ fnum f = num.
 Proof.
   unfold field_by_number.
-  assert (G : forall fs j acc i f,
+  assert (G : forall fs j acc i' f',
     (fix go (i : nat) (fs : list fdesc) (acc : option (nat * fdesc)) : option (nat * fdesc) :=
        match fs with
        | [] => acc
        | f :: fs' => go (S i) fs' (if fnum f =? num then Some (i, f) else acc)
-       end) j fs acc = Some (i, f) ->
-    acc = Some (i, f) \/ ((j <= i)%nat /\ nth_error fs (i - j) = Some f /\ fnum f = num)).
-  { induction fs as [|f0 fs IH]; intros j acc i f H; [left; exact H|].
+       end) j fs acc = Some (i', f') ->
+    acc = Some (i', f') \/ ((j <= i')%nat /\ nth_error fs (i' - j) = Some f' /\ fnum f' = num)).
+  { clear. induction fs as [|f0 fs IH]; intros j acc i' f' H; [left; exact H|].
     apply IH in H. destruct H as [H | (Hj & Hn & Hf)].
     - destruct (fnum f0 =? num) eqn:E; [|left; exact H].
-      injection H as <- <-. right. rewrite Nat.sub_diag. cbn [nth_error]. repeat split; auto; lia.
+      injection H as <- <-. right. rewrite Nat.sub_diag. cbn [nth_error]. apply Z.eqb_eq in E. repeat split; auto; lia.
     - right. split; [lia|]. split; [|exact Hf].
-      replace (i - j)%nat with (S (i - S j)) by lia. exact Hn. }
+      replace (i' - j)%nat with (S (i' - S j)) by lia. exact Hn. }
   intros H. apply G in H. destruct H as [H | (_ & Hn & Hf)]; [discriminate|].
   rewrite Nat.sub_0_r in Hn. auto.
 Qed.
@@ -116,7 +101,7 @@ Proof.
   assert (Hmid : exists raw1 sow1 current,
      (match getattr sc (Obj c raw sow unk cur) i with
       | (o', Ok cur_v) => (o', cur_v)
-      | (_, Err _) => let d := default_of sc f in (setattr sc (Obj c raw sow unk cur) i d, d)
+      | (_, Err _) => (setattr sc (Obj c raw sow unk cur) i (default_of sc f), default_of sc f)
       end) = (Obj c raw1 sow1 unk (upd_sel f i cur), current) /\
      InvS sc (Obj c raw1 sow1 unk (upd_sel f i cur)) /\
      (forall g, fgroup f = Some g -> (g < length cur)%nat -> nth g (upd_sel f i cur) None <> None)).
@@ -135,11 +120,10 @@ Proof.
       exists raw', sow, w. split; [reflexivity|]. split.
       + destruct Hraw as [->| ->]; [exact H | eapply InvS_set_readable; eauto].
       + intros g Hg Hl E0. apply Hs. unfold group_selects. rewrite Hg, E0. reflexivity. }
-  destruct Hmid as (raw1 & sow1 & current & -> & H1 & Hvis).
+  destruct Hmid as (raw1 & sow1 & current & Hm & H1 & Hvis). rewrite Hm in E. clear Hm.
   assert (Hvis' : forall g, fgroup f = Some g -> (g < length (upd_sel f i cur))%nat ->
                             nth g (upd_sel f i cur) None <> None).
   { intros g Hg Hl. rewrite upd_sel_length in Hl. auto. }
-  rewrite Hfit.
   assert (Hset : forall x, InvS sc (Obj c (set_nth i x raw1) sow1 unk (upd_sel f i cur))).
   { intros x. eapply InvS_set_visible; eauto. }
   destruct (ptype_eqb (fty f) TMap).
@@ -157,16 +141,6 @@ Proof.
 Qed.
 
 (* ---- the loop ---- *)
-Lemma frames_fuel_mono fuel' n : forall s ps, frames fuel' n s = Ok ps -> frames fuel' (S n) s = Ok ps.
-Proof.
-  induction n as [|n IH]; intros s ps H; [discriminate|].
-  cbn [frames] in H |- *. destruct s as [|b s]; [exact H|].
-  destruct (load_varint (b :: s)) as [[[nw r] s1]|]; cbn [bind] in *; [|discriminate].
-  destruct (load_field fuel' s1 nw r) as [[p s2]|]; cbn [bind] in *; [|discriminate].
-  destruct (frames fuel' n s2) as [rest|] eqn:Er; cbn [bind] in *; [|discriminate].
-  rewrite (IH _ _ Er). exact H.
-Qed.
-
 Lemma c7_loop_spec fuel' sc size c : forall n o s read o' s',
   InvS sc o -> ocls o = c ->
   c7_loop fuel' sc size (get_class sc c) n o s read = Ok (o', s') ->
@@ -197,18 +171,12 @@ Proof.
 Qed.
 
 (* ---- Message.load / parse ---- *)
-Theorem InvS_load fuel sc o s size o' s' :
-  InvS sc o -> load fuel sc o s size = Ok (o', s') -> InvS sc o' /\ ocls o' = ocls o.
+Theorem InvS_load fuel sc o s o' s' :
+  InvS sc o -> load fuel sc o s None = Ok (o', s') -> InvS sc o' /\ ocls o' = ocls o.
 Proof.
   intros H E. destruct fuel as [|fuel']; [discriminate|].
   destruct o as [c raw sow unk cur]. rewrite load_unfold in E.
-  match type of E with (do _ <- ?R; _) = _ => destruct R as [[size' s0]|] end; cbn [bind] in E; [|discriminate].
-  assert (H0 : InvS sc (Obj c raw true unk cur)) by (eapply InvS_flags; exact H).
-  assert (G : c7_loop fuel' sc size' (get_class sc c) (S (length s0)) (Obj c raw true unk cur) s0 0 = Ok (o', s') ->
-              InvS sc o' /\ ocls o' = c).
-  { intros E'. apply c7_loop_spec in E'; auto. tauto. }
-  destruct size' as [[|?|?]|]; auto.
-  injection E as <- <-. auto.
+  apply c7_loop_spec with (c := c) in E; [tauto | eapply InvS_flags; exact H | reflexivity].
 Qed.
 
 Theorem InvS_parse_into sc o bs o' : InvS sc o -> parse_into sc o bs = Ok o' -> InvS sc o' /\ ocls o' = ocls o.
@@ -229,7 +197,7 @@ Theorem parse_into_selections sc o bs o' :
 Proof.
   unfold parse_into. intros H E.
   destruct (load _ sc o bs None) as [[o1 s1]|] eqn:El; cbn [bind] in E; [|discriminate].
-  injection E as <-. destruct o as [c raw sow unk cur]. rewrite load_unfold in El. cbn [bind] in El.
+  injection E as <-. destruct o as [c raw sow unk cur]. rewrite load_unfold in El.
   apply c7_loop_spec with (c := c) in El; [|eapply InvS_flags; exact H|reflexivity].
   destruct El as (_ & _ & Hps). destruct (Hps eq_refl) as (ps & Hfr & Hfold).
   exists ps. split; [exact Hfr | exact Hfold].
